@@ -6,6 +6,9 @@ Abstract objects are tagged tuples:
 Abstract types: 'any' 'int' 'float' 'str' 'bytes' 'bool' | ('enum',k) ('lit',[objs]) ('list',t) ('seq',t) ('mseq',t)
   ('tup*',t) ('deque',t) ('set',t) ('mset',t) ('fset',t) ('tup',[ts]) ('dict',k,v) ('map',k,v) ('mmap',k,v)
   ('opt',t) ('new',t) ('ann',t) ('final',t) ('alias',t) ('cls',k) ('td',k)
+  ('odict',k,v) ('ddict',k,v) ('counter',k)   collections.OrderedDict[K, V] / defaultdict[K, V] / Counter[K]: mapping types
+       whose target class is not dict; their values are ('D', 'od'|'dd'|'ctr', [(k,v)..]) (the default_factory of a
+       defaultdict is a function of the declared type, not part of the abstract object)
   ('nt',k)   a typing.NamedTuple class of the world (class kind 'nt'); its values are ('I',k,[(name,v)..])
   ('union',[k...],has_none)   Union[K.., (None)] of attrs classes / dataclasses of the world
 """
@@ -50,6 +53,8 @@ def obj_sx(o) -> str:
         return "(" + " ".join([t] + [obj_sx(x) for x in o[1]]) + ")"
     if t == "d":
         return "(" + " ".join(["d"] + ["(%s %s)" % (obj_sx(k), obj_sx(v)) for k, v in o[1]]) + ")"
+    if t == "D":
+        return "(" + " ".join(["D", o[1]] + ["(%s %s)" % (obj_sx(k), obj_sx(v)) for k, v in o[2]]) + ")"
     if t == "I":
         return "(" + " ".join(["I", str(o[1])] + ["(%s %s)" % (esc(n), obj_sx(v)) for n, v in o[2]]) + ")"
     if t == "o":
@@ -66,6 +71,8 @@ def canon_sx(o) -> str:
         return "(" + " ".join([t] + [canon_sx(x) for x in o[1]]) + ")"
     if t == "d":
         return "(" + " ".join(["d"] + ["(%s %s)" % (canon_sx(k), canon_sx(v)) for k, v in o[1]]) + ")"
+    if t == "D":
+        return "(" + " ".join(["D", o[1]] + ["(%s %s)" % (canon_sx(k), canon_sx(v)) for k, v in o[2]]) + ")"
     if t == "I":
         return "(" + " ".join(["I", str(o[1])] + ["(%s %s)" % (esc(n), canon_sx(v)) for n, v in o[2]]) + ")"
     return obj_sx(o)
@@ -83,7 +90,7 @@ def ty_sx(t) -> str:
         return "(" + " ".join(["ounion" if t[2] else "union"] + [str(c) for c in t[1]]) + ")"
     if k == "tup":
         return "(" + " ".join(["tup"] + [ty_sx(x) for x in t[1]]) + ")"
-    if k in ("dict", "map", "mmap"):
+    if k in ("dict", "map", "mmap", "odict", "ddict"):
         return "(%s %s %s)" % (k, ty_sx(t[1]), ty_sx(t[2]))
     return "(%s %s)" % (k, ty_sx(t[1]))
 
@@ -203,6 +210,8 @@ def obj_of_px(p):
         return (h, [obj_of_px(x) for x in p[1:]])
     if h == "d":
         return ("d", [(obj_of_px(k), obj_of_px(v)) for k, v in p[1:]])
+    if h == "D":
+        return ("D", p[1], [(obj_of_px(k), obj_of_px(v)) for k, v in p[2:]])
     if h == "I":
         return ("I", int(p[1]), [(n[1], obj_of_px(v)) for n, v in p[2:]])
     if h == "o":
@@ -215,7 +224,7 @@ def obj_of_px(p):
 def tuple_ify(o):
     """JSON turns tuples into lists; restore the abstract-term shape."""
     if isinstance(o, list):
-        if o and isinstance(o[0], str) and o[0] in ("N", "b", "i", "f", "s", "y", "e", "l", "t", "q", "S", "F", "d", "I", "o"):
+        if o and isinstance(o[0], str) and o[0] in ("N", "b", "i", "f", "s", "y", "e", "l", "t", "q", "S", "F", "d", "D", "I", "o"):
             tag = o[0]
             if tag in ("l", "t", "q", "S", "F"):
                 return (tag, [tuple_ify(x) for x in o[1]])
@@ -223,6 +232,8 @@ def tuple_ify(o):
                 return (tag, [(tuple_ify(k), tuple_ify(v)) for k, v in o[1]])
             if tag == "I":
                 return (tag, o[1], [(n, tuple_ify(v)) for n, v in o[2]])
+            if tag == "D":
+                return (tag, o[1], [(tuple_ify(k), tuple_ify(v)) for k, v in o[2]])
             return tuple(o)
         if o and isinstance(o[0], str):  # a type term
             k = o[0]
@@ -234,7 +245,7 @@ def tuple_ify(o):
                 return (k, list(o[1]), bool(o[2]))
             if k == "tup":
                 return (k, [tuple_ify(v) for v in o[1]])
-            if k in ("dict", "map", "mmap"):
+            if k in ("dict", "map", "mmap", "odict", "ddict"):
                 return (k, tuple_ify(o[1]), tuple_ify(o[2]))
             return (k, tuple_ify(o[1]))
         return [tuple_ify(x) for x in o]
